@@ -97,6 +97,8 @@ def check_xver(case, il, ctx, ml=""):
 def check_case(prop, case, il, ml, ctx):
     """returns a list of problems (empty = the case agrees)"""
     op = case.split(" ", 1)[0]
+    if op in ("KI", "TI", "LI", "PI"):
+        op = op[0]     # implementation-only variants: same comparison rules, the model answers SKIPPED
     probs = []
     if ctx.get("mode") == "run-xver":
         return check_xver(case, il, ctx, ml)
@@ -146,13 +148,13 @@ def check_case(prop, case, il, ml, ctx):
             if key not in I:
                 continue
             exp = want if want is not None else M.get(key if key != "n" or "n" in M else "m")
-            if exp is None:
+            if exp is None or exp == "SKIPPED":
                 continue
             _eq(probs, f"{op}/{key}", I[key], exp)
         if mode == "spec":
             # the model's own layers must agree with the specification (model = spec theorems)
             for key in ("m", "n", "c"):
-                if key in M and M[key] != M["s"] and M[key] != "SKIPPED":
+                if key in M and M[key] != M["s"] and M[key] != "SKIPPED" and M["s"] != "SKIPPED":
                     probs.append(f"MODEL-LAYER {key} differs from spec: {M[key][:120]!r} vs {M['s'][:120]!r}")
         if mode == "spec" and "m" in I and "c" in I and I["m"] != I["c"]:
             probs.append(f"{op}: cache answer differs from mapper answer: {I['c'][:160]!r} vs {I['m'][:160]!r}")
